@@ -1,5 +1,6 @@
 SPECIFICATION Spec
 CONSTANTS
+  Variant = "fixed"
   ClassName = "D1"
   MaxOps = 3
 CONSTRAINT MJudge
